@@ -81,8 +81,22 @@ NodeCat == {e \in CidrsAligned("v4") : e.b >= 1} \cup Respell({e \in CidrsAligne
            \cup RangesSome("v4") \cup {e \in CidrsAligned("v6") : e.b >= 1} \cup RangesSome("v6")
 NodeAddrs == {Addr(t, "v4", a, sp) : t \in {"int", "ext"}, a \in Marks, sp \in {"plain", "mapped"}}
              \cup {Addr(t, "v6", a, "plain") : t \in {"int", "ext"}, a \in Marks}
+(* nodes with 2-3 address entries: several InternalIPs (v4+v6 in both orders, two of one family)   *)
+(* and other address types (ExternalIP, Hostname) before / between them: EVERY InternalIP counts   *)
+MultiAddr == {Addr("int", "v4", 1, "plain"), Addr("int", "v4", NA - 4, "plain"), Addr("int", "v6", 1, "plain"),
+              Addr("int", "v6", NA - 4, "plain"), Addr("ext", "v4", 1, "plain"), Addr("host", "v4", 0, "plain")}
+MultiAddrSeqs == {<<x, y>> : x \in MultiAddr, y \in MultiAddr} \cup {<<x, y, z>> : x \in MultiAddr, y \in MultiAddr, z \in MultiAddr}
+MultiPools == {<<Pool("p1", "", <<E("cidr", "v4", 0, 1, "plain")>>)>>,
+               <<Pool("p1", "", <<E("cidr", "v6", 0, 1, "plain")>>)>>,
+               <<Pool("p1", "", <<E("range", "v4", NA - 5, NA - 2, "plain")>>)>>,
+               <<Pool("p1", "", <<E("cidr", "v6", NA - 4, W, "plain")>>)>>,
+               <<Pool("p1", "", <<E("cidr", "v4", 0, 2, "mapped")>>), Pool("p2", "", <<E("range", "v6", 0, 3, "plain")>>)>>,
+               <<Pool("p1", "", <<E("cidr", "v4", NA \div 2, 1, "plain"), E("cidr", "v6", NA \div 2, 1, "plain")>>)>>}
 SliceNodes(u) ==
   {Snap("nodes", <<Pool("p1", "", <<e>>)>>, <<Node("n1", "a", <<ad>>)>>, <<>>, <<>>, <<>>) : e \in NodeCat, ad \in NodeAddrs}
+  \cup {Snap("nodes", pl, <<Node("n1", "a", ads)>>, <<>>, <<>>, <<>>) : pl \in MultiPools, ads \in MultiAddrSeqs}
+  \cup {Snap("nodes", pl, <<Node("n1", "a", <<Addr("int", "v4", NA \div 2 - 1, "plain")>>), Node("n2", "b", ads)>>, <<>>, <<>>, <<>>) :
+          pl \in MultiPools, ads \in {s \in MultiAddrSeqs : Len(s) = 2}}
   \cup {Snap("nodes", <<Pool("p1", "", <<E("cidr", "v4", 0, 1, "plain")>>), Pool("p2", "", <<e>>)>>,
              <<Node("n1", "a", <<Addr("ext", "v4", 0, "plain"), ad1>>), Node("n2", "b", <<ad2>>)>>, <<>>, <<>>, <<>>) :
           e \in {E("cidr", "v4", NA \div 2, 2, "plain"), E("range", "v6", 3, 8, "plain")},
